@@ -88,6 +88,7 @@ def contexts():
     C.append(("dependencies", lambda x, d2: _d2({"dependencies": {"k": x}}, d2), lambda t: t.dependencies["k"], True))
     for comp in ("allOf", "anyOf", "oneOf"):
         C.append(("ref-shared-%s" % comp, lambda x, d2, comp=comp: _d2({"type": "object", "title": "Ctx", "properties": {"q": {"$ref": "#/definitions/s"}, "p": {comp: [{"$ref": "#/definitions/s"}], "default": x.get("default") if isinstance(x, dict) else None}, "r": {"$ref": "#/definitions/s"}}, "definitions": {"s": {"type": "string", "minLength": 1}}}, d2), lambda t: _prop(t, "p"), True))
+    C.append(("shared-definition-with-default", lambda x, d2: _d2({"type": "object", "title": "Ctx", "properties": {"q": {"$ref": "#/definitions/s"}, "r": {"$ref": "#/definitions/s"}, "arr": {"type": "array", "items": {"$ref": "#/definitions/s"}}}, "definitions": {"s": x}}, d2), lambda t: _prop(t, "q"), True))
     C.append(("property.of.property", lambda x, d2: _d2({"type": "object", "title": "Ctx", "properties": {"o": {"type": "object", "title": "Mid", "properties": {"p": x}, "default": {"p": 1}}}}, d2), lambda t: _prop(_prop(t, "o"), "p"), True))
     return C
 
@@ -165,6 +166,7 @@ def check_default_case(st, cname, place, find, iname, make, d, d2, rank):
     st.add("states")
     st.add("transitions")
     declared = declared_defaults(schema)
+    multiset_ok = not cname.startswith("shared-definition")  # one declared default, legitimately present once per reference / once on a shared class
     try:
         tree = parse(docs.load(schema))[0]
     except Exception as exc:
@@ -191,7 +193,7 @@ def check_default_case(st, cname, place, find, iname, make, d, d2, rank):
                 st.violation("default-leaked-to-shared-definition", "%s/%s: default %r declared on property p also appears on property %s which only references the shared definition" % (cname, iname, d, other), case, rank)
     # (b) nothing dropped / invented / duplicated anywhere
     have = tree_defaults(tree)
-    if multiset(declared) != multiset([v for _, v in have]):
+    if multiset_ok and multiset(declared) != multiset([v for _, v in have]):
         st.violation("default-multiset-differs:parse", "%s/%s: declared defaults %s, parsed tree carries %s" % (cname, iname, multiset(declared), multiset([v for _, v in have])), case, rank)
     # (c) no container default shared by identity between two elements
     ids = {}
@@ -204,7 +206,7 @@ def check_default_case(st, cname, place, find, iname, make, d, d2, rank):
     try:
         doc = serialize_json(tree)
         jd = declared_defaults(doc)
-        if multiset(jd) != multiset(declared):
+        if multiset_ok and multiset(jd) != multiset(declared):
             st.violation("default-multiset-differs:json", "%s/%s: declared %s, JSON document carries %s: %s" % (cname, iname, multiset(declared), multiset(jd), json.dumps(doc)[:300]), {**case, "document": doc}, rank)
         else:
             t2 = parse(docs.load(doc))[0]
@@ -227,7 +229,7 @@ def check_default_case(st, cname, place, find, iname, make, d, d2, rank):
                     continue
                 want = multiset([v for _, v in tree_defaults(cls)])
                 gotm = multiset([v for _, v in tree_defaults(gen)])
-                if want != gotm:
+                if multiset_ok and want != gotm:
                     st.violation("default-multiset-differs:python", "%s/%s: class %s carries defaults %s, generated class %s" % (cname, iname, cls.__name__, want, gotm), {**case, "module": text[:800]}, rank)
             if isinstance(tree, ObjectMeta):
                 gt = ns.get(tree.__name__)
